@@ -205,6 +205,8 @@ package cisco
 //vc:  assign after "c := p.lookupCmd(line)" unknownTop = unknownTop || callresult == nil
 //vc:  invariant[C18] 1 "for len(data) > 0" @appendFlagFollowsMarker isAppend == appendSeenC
 //vc:  invariant[C18] 1 "for len(data) > 0" @unknownCommandNotSkippedInRaw !(isRaw && unknownTop)
+// C20 termination kernel: every iteration consumes at least one line
+//vc:  decreases[C20] 1 "for len(data) > 0" len(data)
 //vc:  assert[C18] at "m[c.name] = append(m[c.name], c)" @toplevelCarriesAppendState c.append == appendSeenC
 //vc:  ensures[C18] @rawFileWithUnknownCommandRejected path.Ext(fName) == ".raw" && unknownTop ==> result1 != nil
 
